@@ -728,11 +728,10 @@ fn emit_case(em: &mut Emitter, id: String, case: Case, origin: &'static str) {
     });
 }
 
-fn exhaustive(em: &mut Emitter, max_len: usize) {
-    // 9-operation alphabet; feeds get a position-dependent fill byte
-    let alpha: Vec<Op> = vec![
+fn alphabet(with_limit_feed: bool) -> Vec<Op> {
+    // feeds get a position-dependent fill byte; two 20 000-byte feeds cross the limit
+    let mut a = vec![
         Op::Feed { fill: 0, n: 20_000 },
-        Op::Feed { fill: 0, n: 32_768 },
         Op::Eof,
         Op::Err { kind: 2 },
         Op::SenderDrop,
@@ -741,8 +740,16 @@ fn exhaustive(em: &mut Emitter, max_len: usize) {
         Op::Unread { fill: 0, n: 3 },
         Op::ReaderDrop,
     ];
+    if with_limit_feed {
+        a.insert(1, Op::Feed { fill: 0, n: 32_768 });
+    }
+    a
+}
+
+/// every history of length `lens` over `alpha`, each followed by three probing operations
+fn exhaustive(em: &mut Emitter, alpha: &[Op], lens: std::ops::RangeInclusive<usize>, prefix: &str) {
     let mut idx = 0usize;
-    for len in 1..=max_len {
+    for len in lens {
         let total = alpha.len().pow(len as u32);
         for code in 0..total {
             let mut c = code;
@@ -759,7 +766,7 @@ fn exhaustive(em: &mut Emitter, max_len: usize) {
             ops.push(Op::Poll { w: 0 });
             ops.push(Op::Poll { w: 0 });
             ops.push(Op::NeedRead { w: 1 });
-            emit_case(em, format!("exh-{idx}"), Case { eof: false, ops }, "gen:exhaustive");
+            emit_case(em, format!("{prefix}-{idx}"), Case { eof: false, ops }, "gen:exhaustive");
             idx += 1;
         }
     }
@@ -775,7 +782,12 @@ fn main() {
     if args.case.is_none() {
         let mut rng = Rng::new(args.seed);
         let n = args.n.unwrap_or(if args.thorough() { 4000 } else { 700 });
-        exhaustive(&mut em, if args.thorough() { 5 } else { 3 });
+        // 9-operation alphabet (two feed sizes) up to length 3 (quick) / 4 (thorough);
+        // thorough adds every history of length 5 over the 8-operation alphabet
+        exhaustive(&mut em, &alphabet(true), 1..=(if args.thorough() { 4 } else { 3 }), "exh9");
+        if args.thorough() {
+            exhaustive(&mut em, &alphabet(false), 5..=5, "exh8");
+        }
         for i in 0..n {
             let mut r = rng.fork();
             let max_len = if args.thorough() && i % 8 == 0 { 400 } else { 40 };
